@@ -419,6 +419,28 @@ func main() {
 		fmt.Fprintf(&b, "  { name := %q, load := %s, env := %s,\n    apply := %s }%s\n", s.Name, lev(s.Load), lev(s.Env), lev(s.Apply), sep)
 	}
 	b.WriteString("]\n\n")
+	b.WriteString("/-- the envconfig decode kind of every variable, from the Go type of the JSON-struct field -/\ndef envKinds : List (String × EnvK.Kind) := [\n")
+	{
+		var rows []string
+		for _, s := range secs {
+			for _, f := range s.Fields {
+				k := common.C15EnvKind(f.JType)
+				lk := "." + k
+				switch k {
+				case "int64":
+					lk = "(.int 64)"
+				case "int32":
+					lk = "(.int 32)"
+				case "uint64":
+					lk = "(.uint 64)"
+				case "uint32":
+					lk = "(.uint 32)"
+				}
+				rows = append(rows, fmt.Sprintf("  (%q, %s)", f.EnvName(s.EnvPrefix), lk))
+			}
+		}
+		b.WriteString(strings.Join(rows, ",\n") + "]\n\n")
+	}
 	b.WriteString("end CV.C15.Gen\n")
 	fmt.Print(b.String())
 }
